@@ -824,8 +824,10 @@ class CHECK(Check):
                 return " ".join([proto.strs([x if x is not None else "?" for x in nm]), proto.lst([x is not None for x in nm], proto.b),
                                  proto.lst([len(c["vals"]) for c in cs])])
             ps = proto.lst([len(case["sw"])]) if case["sw"] is not None else "-"
-            return [f"val.frame {len(case['y_true'])} {len(case['y_pred'])} {ps} "
-                    f"{cols(case['sf'], case['cont']['sf'], 'sensitive_feature_')} {cols(case['cf'], case['cont']['cf'], 'control_feature_')}"]
+            desc = (f"{len(case['y_true'])} {len(case['y_pred'])} {ps} "
+                    f"{cols(case['sf'], case['cont']['sf'], 'sensitive_feature_')} {cols(case['cf'], case['cont']['cf'], 'control_feature_')}")
+            # the hand-written constructor AND the list of checks lifted from MetricFrame.__init__ (Generated/FrameChecksSrc.lean)
+            return ["val.frame " + desc, "fchk.frame " + desc]
         if ep == "parity":
             if case["ratio"] in ("nan", "inf"):
                 return []
